@@ -1,3 +1,4 @@
+import argparse
 import dataclasses
 import datetime
 import hashlib
@@ -193,26 +194,51 @@ class TupimageConfig:
             raise KeyError(f"Unknown config key: {name}")
         field_type = TupimageConfig.__annotations__[name]
 
-        # Normalize values specified as strings.
-        if isinstance(value, str) and value != "auto":
-            if field_type is IDSubspace:
-                value = IDSubspace.from_string(value)
-            if field_type is IDSpace:
-                value = IDSpace.from_string(value)
-            if name == "cell_size" or name == "default_cell_size":
-                value = tupimage.utils.validate_size(value)
-            if name == "id_database_dir" and value == "":
-                value = platformdirs.user_state_dir("tupimage")
-            if name == "upload_method":
-                value = TransmissionMedium.from_string(value)
-            if name in ["max_rows", "max_cols", "num_tmux_layers"]:
-                value = int(value)
-            if name in ["scale", "global_scale"]:
-                value = float(value)
-            if name == "supported_formats":
-                value = re.split(r"[, ]+", value)
-
         provenance = f"({provenance})" if provenance else "(set in code)"
+
+        # Normalize values specified as strings (the form every layer can use:
+        # environment variables are always strings). Conversion errors name the
+        # option.
+        try:
+            if isinstance(value, str) and value != "auto":
+                if field_type is IDSubspace:
+                    value = IDSubspace.from_string(value)
+                if field_type is IDSpace:
+                    value = IDSpace.from_string(value)
+                if name == "cell_size" or name == "default_cell_size":
+                    value = tupimage.utils.validate_size(value)
+                if name == "id_database_dir" and value == "":
+                    value = platformdirs.user_state_dir("tupimage")
+                if name == "upload_method":
+                    value = TransmissionMedium.from_string(value)
+                if (
+                    name in ["max_rows", "max_cols", "num_tmux_layers"]
+                    or field_type is int
+                ):
+                    value = int(value)
+                if name in ["scale", "global_scale"] or field_type is float:
+                    value = float(value)
+                if field_type is bool:
+                    value = TupimageConfig._parse_bool(value)
+                if name == "supported_formats":
+                    value = re.split(r"[, ]+", value)
+                if name == "background":
+                    try:
+                        value = int(value)
+                    except ValueError:
+                        pass
+            elif isinstance(value, int) and not isinstance(value, bool):
+                # The same text (`1`) is an integer in TOML and a string in the
+                # environment; accept it for float and bool options too.
+                if field_type is float:
+                    value = float(value)
+                if field_type is bool and value in (0, 1):
+                    value = bool(value)
+        except (ValueError, OverflowError, argparse.ArgumentTypeError) as e:
+            raise ValueError(
+                f"Option '{name}' has type {field_type}, but the value"
+                f" '{value}' is invalid: {e} {provenance}"
+            )
 
         # Verify the type.
         if not TupimageConfig._verify_type(value, field_type):
@@ -230,8 +256,22 @@ class TupimageConfig:
                     "max_rows must be positive and not greater than 256:"
                     f" {value} {provenance}"
                 )
+        if isinstance(value, tuple) and (value[0] < 1 or value[1] < 1):
+            raise ValueError(f"{name} must be positive: {value} {provenance}")
 
         return value
+
+    @staticmethod
+    def _parse_bool(value: str) -> bool:
+        lowered = value.strip().lower()
+        if lowered in ("true", "yes", "on"):
+            return True
+        if lowered in ("false", "no", "off"):
+            return False
+        number = int(value)  # the same text is an integer in a TOML file
+        if number in (0, 1):
+            return bool(number)
+        raise ValueError("expected true/false, 1/0, yes/no or on/off")
 
     @staticmethod
     def _verify_type(value, type):
@@ -265,6 +305,8 @@ class TupimageConfig:
         elif origin is Literal:
             return value in args
         else:
+            if isinstance(value, bool) and type is int:
+                return False  # a boolean is not an integer option value
             return isinstance(value, type)
 
 
